@@ -16,6 +16,7 @@ import (
 	minttypes "github.com/cosmos/cosmos-sdk/x/mint/types"
 
 	bandtesting "github.com/bandprotocol/chain/v3/testing"
+	feedsmod "github.com/bandprotocol/chain/v3/x/feeds"
 	feedskeeper "github.com/bandprotocol/chain/v3/x/feeds/keeper"
 	feedstypes "github.com/bandprotocol/chain/v3/x/feeds/types"
 	restakekeeper "github.com/bandprotocol/chain/v3/x/restake/keeper"
@@ -32,15 +33,16 @@ type voterT struct {
 }
 
 type caseT struct {
-	app    *fx.App
-	ctx    sdk.Context
-	tr     *fx.Trace
-	r      *fx.Rng
-	fms    feedstypes.MsgServer
-	rms    restaketypes.MsgServer
-	voters []voterT
-	step   int64
-	maxN   uint64
+	app     *fx.App
+	ctx     sdk.Context
+	tr      *fx.Trace
+	r       *fx.Rng
+	fms     feedstypes.MsgServer
+	rms     restaketypes.MsgServer
+	voters  []voterT
+	step    int64
+	maxN    uint64
+	updates int64
 }
 
 func (c *caseT) totalPower(v voterT) sdkmath.Int {
@@ -139,12 +141,19 @@ func (c *caseT) reimport() {
 }
 
 func (c *caseT) updateFeeds() {
-	feeds := c.app.FeedsKeeper.CalculateNewCurrentFeeds(c.ctx)
+	// the REAL end-blocker of a feed-update block (a height divisible by CurrentFeedsUpdateInterval); what the chain
+	// then holds as its current feeds is read back from the store
+	iv := c.app.FeedsKeeper.GetParams(c.ctx).CurrentFeedsUpdateInterval
+	c.updates++
+	h := iv * (1000 + c.updates)
+	ctx := c.ctx.WithBlockHeight(h)
+	e := fx.Try(func() error { return feedsmod.EndBlocker(ctx, c.app.FeedsKeeper) })
+	cur := c.app.FeedsKeeper.GetCurrentFeeds(ctx)
 	l := [][]any{}
-	for _, f := range feeds {
+	for _, f := range cur.Feeds {
 		l = append(l, []any{f.SignalID, fx.I(f.Power), fx.I(f.Interval)})
 	}
-	c.tr.Op(fx.M{"op": "updateFeeds", "out": fx.M{"feeds": l}})
+	c.tr.Op(fx.M{"op": "updateFeeds", "height": h, "out": fx.M{"feeds": l, "err": e, "lastUpdateBlock": cur.LastUpdateBlock}})
 }
 
 func (c *caseT) mintStake(v voterT, amt sdkmath.Int) {
